@@ -209,7 +209,11 @@ func runC09(e *Env) Outcome {
 					feat := map[string]bool{"typed-template": tm.name != "nil", "via-reader": entry == 1}
 					if f == gen.CTE {
 						// a cut between two non-blank characters splits a lexical token
-						feat["cut-splits-token"] = (!isBlank(doc[k-1]) && !isBlank(doc[k])) || insideQuotes(doc, k)
+						if (!isBlank(doc[k-1]) && !isBlank(doc[k])) || insideQuotes(doc, k) {
+							// the cut truncates a text token: what the shorter token
+							// decodes to does not depend on entry point or template
+							feat = map[string]bool{"cut-splits-token": true}
+						}
 					} else if gdoc != nil {
 						feat["cut-in:"+cutKind(gdoc, k)] = true
 					}
